@@ -8,6 +8,9 @@ CHECKS = {
  # id: (technique, level text, level note, design ref)
  "C03": (E1, "All schedules within the stated preemption / free-switch / environment-deviation budgets of closed scenarios (server + raw peer + optional Cancel/Stop/Notify thread) are executed on the real code; the ordering oracle runs on every complete execution, so 'for all interleavings' becomes a counted, exhausted set.", "vs shims faithful to sync/channel semantics; data-race freedom; bounds as reported per scenario", "DESIGN.md §5 C03"),
  "C08": (E1, "Every schedule within the budgets of scenarios {traffic} x {Stop, peer close, injected failure at each channel operation, two causes} x {stepped, free-running} x {Close unblocks Recv or not} x {records after the stop} runs on the real server; panics, deadlocks, leaked threads, status, context cancellation, notification hand-off, leftover state and restart are checked on each.", "vs shims faithful; data-race freedom; the peer closes its end after seeing EOF; bounds as reported per scenario", "DESIGN.md §5 C08"),
+ "C01": (E1, "Every message sequence of length 1-2 (thorough: 3 over a sub-alphabet) over a 16-letter alphabet of single/batch/call/notification/invalid/duplicate/unknown members, under every schedule within the budgets; exactly-once, correlation by token, array shape, order, after-all-handlers and silence-at-quiescence are judged on each execution.", "vs shims faithful; data-race freedom; alphabets and bounds as reported", "DESIGN.md §5 C01"),
+ "C06": (E1, "N in 1..3 slots, 1..N+2 gated calls as one batch or single messages (optionally with rpc.serverInfo); a controller opens gates in every order (free explorer choice) and the running set is compared with min(N, unfinished) at every quiescent point and with N at every handler entry, under every schedule within the budgets; cancellation-while-waiting and the Concurrency<1 option mapping included.", "vs shims faithful; quiescence is exact under the cooperative scheduler; bounds as reported", "DESIGN.md §5 C06"),
+ "C07": (E1, "All stepped histories up to length 3 (thorough 5) over {call(id in {1,2}, method in slow/fast/err/unknown/rpc.*), in-batch duplicate, CancelRequest(1,2,3), release, Stop, base-context end} are enumerated (the operation is a free explorer choice), each under every schedule within the budgets, and every reply, handler context observation and reserved-id snapshot is compared with a reference model of 'ids in flight'.", "vs shims faithful; reserved ids read by reflection from Server.used (degrades to reply-level rules if renamed)", "DESIGN.md §5 C07"),
 }
 ALL = [json.loads(l)["id"] for l in open(os.path.join(HERE, "properties.jsonl"))]
 PENDING = "check not built yet (work in progress in the order of DESIGN.md §10); nothing is claimed for it"
